@@ -196,6 +196,16 @@ def run(chk, tier):
         chk.bad("R01.3", "%s|%s" % (bp, lib.short(callee)), "unclassified panic-like callee %s" % callee, "%s:%d" % (f, line))
     ndisp = 0
     seen_keys = set()
+    # a reviewed row speaks about the code of a function; the same construct inside one of that function's closures (code moved into a local
+    # closure) is covered by the function's row, with the occurrences counted together
+    merged = collections.defaultdict(list)
+    for (bp, sig), sites in out.items():
+        root = re.sub(r"(::\{closure#\d+\})+$", "", bp)
+        if root != bp and (bp + "|" + sig) not in table and (root + "|" + sig) in table and root in F.by_path:
+            merged[(root, sig)].extend(sites)
+        else:
+            merged[(bp, sig)].extend(sites)
+    out = merged
     for (bp, sig), sites in sorted(out.items()):
         where = ", ".join("%s:%d" % (f, l) for l, f in sites[:4])
         bodies = [b for b in F.by_path[bp] if b.pkg in PKGS]
